@@ -15,7 +15,7 @@ class H:
 
     def __init__(self, name, tiers=("quick", "thorough"), functions=(), domain="", bound="",
                  expect="pass", heavy=False, unsafe=None, timeout=None, optional=False,
-                 kf=None, signature=None, what=None, group=None):
+                 kf=None, signature=None, what=None, group=None, mod=0):
         self.name = name
         self.tiers = tiers
         self.functions = list(functions)
@@ -30,6 +30,20 @@ class H:
         self.signature = signature    # regex the failed-check description must match (finding witnesses)
         self.what = what              # human description of the finding
         self.group = group            # explicit group name (own cargo-kani invocation)
+        self.mod = mod                # index into spec["inject"]: the module that defines the harness
+
+
+def module_path(rel_file, modname):
+    """crate-relative module path of a module appended to <crate>/<rel_file>."""
+    p = rel_file
+    if p.startswith("src/"):
+        p = p[4:]
+    if p.endswith(".rs"):
+        p = p[:-3]
+    parts = [x for x in p.split("/") if x]
+    if parts and parts[-1] in ("mod", "lib", "main"):
+        parts = parts[:-1]
+    return "::".join(parts + [modname])
 
 
 def _kf_keys_in_sources(paths):
@@ -83,11 +97,15 @@ class Run:
         with open(os.path.join(hdir, "kf.rs"), "w") as f:
             f.write("// generated from /verif/known_findings.json: true = listed as an open known finding\n")
             for k in sorted(keys):
-                f.write("#[allow(dead_code)] pub const %s: bool = %s;\n" % (k, "true" if k in open_keys else "false"))
+                f.write("#[allow(dead_code)] pub(super) const %s: bool = %s;\n" % (k, "true" if k in open_keys else "false"))
         self.staged_sources = srcs
         return st
 
     # -- Kani ----------------------------------------------------------------------------------
+    def full_name(self, h):
+        crate, rel_file, _harness_rel, modname = self.spec["inject"][h.mod]
+        return module_path(rel_file, modname) + "::" + h.name
+
     def harnesses(self):
         hs = [h for h in self.spec["harnesses"] if self.tier in h.tiers]
         open_keys = {f["key"] for f in self.open_findings}
@@ -109,7 +127,7 @@ class Run:
             groups.setdefault((g, unsafe), []).append(h)
         budget = spec.get("timeout", {}).get(self.tier, 900)
         for (g, unsafe), members in sorted(groups.items(), key=lambda kv: kv[0][0] != "light"):
-            names = [h.name for h in members]
+            names = [self.full_name(h) for h in members]
             jobs = 1
             if g != "light" and len(names) > 1:
                 jobs = min(len(names), spec.get("jobs", core.NCPU))
@@ -117,23 +135,26 @@ class Run:
             log("[%s] kani group %s (%d harnesses, jobs=%d, pointer-checks=%s, timeout=%ds)" %
                 (self.pid, g, len(names), jobs, unsafe, tmo))
             res, meta = core.run_kani(self.stage, spec["package"], names, unsafe_checks=unsafe,
-                                      timeout=tmo, mem_gb=spec.get("mem_gb", 14) * max(1, jobs),
-                                      extra_flags=spec.get("kani_flags", ()), jobs=jobs,
+                                      timeout=tmo, mem_gb=None,
+                                      extra_flags=tuple(spec.get("kani_flags", ())) + ("--exact",), jobs=jobs,
                                       logname="kani-%s-%s" % (g, "u" if unsafe else "s"))
             self.metas.append({k: v for k, v in meta.items() if k != "out"})
             if meta["build_error"]:
                 self.inconclusive.append("build error in staged workspace (see %s)" % meta["log"])
-                tail = "\n".join([l for l in meta["out"].splitlines() if "error" in l][:20])
-                log(tail)
+                lines = meta["out"].splitlines()
+                for i, l in enumerate(lines):
+                    if l.startswith("error"):
+                        log("\n".join(lines[i:i + 6]))
+                break
             # failed harnesses in a -j run have no playback: rerun each alone
             if jobs > 1:
                 for h in members:
                     r = res[h.name]
-                    if r.status == "FAILED" and h.expect == "pass" and not r.unwind_failed:
+                    if r.status == "FAILED" and h.expect != "twin" and not r.unwind_failed:
                         log("[%s] re-running %s alone for a concrete counterexample" % (self.pid, h.name))
-                        res2, meta2 = core.run_kani(self.stage, spec["package"], [h.name], unsafe_checks=unsafe,
-                                                    timeout=tmo, mem_gb=spec.get("mem_gb", 14),
-                                                    extra_flags=spec.get("kani_flags", ()), jobs=1,
+                        res2, meta2 = core.run_kani(self.stage, spec["package"], [self.full_name(h)], unsafe_checks=unsafe,
+                                                    timeout=tmo, mem_gb=None,
+                                                    extra_flags=tuple(spec.get("kani_flags", ())) + ("--exact",), jobs=1,
                                                     logname="kani-rerun-" + h.name)
                         if res2[h.name].status == "FAILED":
                             res[h.name] = res2[h.name]
@@ -262,13 +283,18 @@ class Run:
         }
         core.write_evidence(self.pid, self.tier, self.seed, time.time() - self.t0, coverage,
                             spec.get("assumptions", []), len(self.violations))
+        for h in hs:
+            r = self.results.get(h.name)
+            if r is not None:
+                log("  %-34s %-8s checks=%-4d covers=%d/%d  %.1fs" % (h.name, r.status, r.checks_total, r.covers_sat,
+                                                                    r.covers_total, r.time_s))
         for name, desc, path in self.violations:
             log("VIOLATION property=%s replay=%s   (%s: %s)" % (self.pid, path, name, desc))
+        for why in self.inconclusive:
+            log("[%s] INCONCLUSIVE: %s" % (self.pid, why))
         if self.violations:
             return 1
         if self.inconclusive:
-            for why in self.inconclusive:
-                log("[%s] INCONCLUSIVE: %s" % (self.pid, why))
             return 2
         log("[%s] OK tier=%s harnesses=%d checks=%d nontrivial=%d wall=%.0fs" %
             (self.pid, self.tier, len(hs), evaluations, nontrivial, time.time() - self.t0))
@@ -283,7 +309,7 @@ def replay_test(spec, stage, test_text, staged_sources):
     target = None
     for p in staged_sources:
         with open(p) as f:
-            if hname and re.search(r"fn %s\b" % hname, f.read()):
+            if hname and re.search(r"\b%s\b" % hname, f.read()):
                 target = p
                 break
     if target is None:
